@@ -77,7 +77,7 @@ Proof.
     destruct Hc as [Hc|Hc]; [subst h; exact Hs|apply (IH Hc _ Hl)]. }
   destruct (mspec_entry_layout c e Hslok He) as [pre [s [post [E [Hin _]]]]].
   assert (Hs : In s (m_slices c)) by (rewrite E; apply in_or_app; right; left; reflexivity).
-  rewrite Forall_forall in Hsl. destruct (Hsl s Hs) as [_ [_ Hrok]].
+  rewrite Forall_forall in Hsl. destruct (Hsl s Hs) as [_ [_ [Hrok _]]].
   rewrite E in Hslok. pose proof (sl_ok_bound_any _ _ _ _ Hslok) as Hb.
   apply (multi_entry_fits (m_off c) (s_landmark s) (s_len s) (s_recs s) e Hrok).
   - rewrite Forall_forall in *. intros x Hx. apply F3. apply (in_m_recs_slice c s x Hs Hx).
